@@ -189,6 +189,25 @@ func c12A(e *core.Env) {
 	for i := range reqs {
 		reqs[i] = &lreq{Hold: e.Choose("gen", 3, "hold") == 2, ThinkMS: []int{0, 1, 1000, 30000, 200000}[e.Choose("gen", 5, "think")]}
 	}
+	// one case in six is steered towards a state that uniform drawing rarely reaches: a response of host X is still
+	// open when X asks the next request to stay away (429 + Retry-After), the open response is then completed, and
+	// further requests follow within the window
+	if e.Choose("gen", 6, "rapattern") == 5 {
+		x := hosts[e.Choose("gen", len(hosts), "rahost")]
+		x.Has = true
+		net.Hosts[x.Name].(*regmodel.Reg).PutBlob("r", blobData)
+		x.script = append([]int{0, simnet.F429RetryAfter}, x.script...)
+		x.Script = append([]string{simnet.FaultNames[0], simnet.FaultNames[simnet.F429RetryAfter]}, x.Script...)
+		for len(reqs) < 3 {
+			reqs = append(reqs, &lreq{})
+		}
+		reqs[0].Hold = true
+		for i := 1; i < len(reqs); i++ {
+			reqs[i].ThinkMS = []int{0, 1, 1000}[e.Choose("gen", 3, "rathink")]
+		}
+		nreq = len(reqs)
+		e.Probe("steered:open-response-while-retry-after")
+	}
 	sample := map[string]any{"mode": "A: logical GETs through reghttp", "retry_limit": limit, "delay_init": delayInit.String(), "delay_max": effMax.String(), "hosts": hosts, "requests": reqs, "credentials": withCreds}
 	e.SetCase(fmt.Sprintf("A|%d|%v|%v|%+v|%d|%v", limit, delayInit, delayMax, hosts, nreq, withCreds), true, sample)
 	curReq := -1
